@@ -24,6 +24,7 @@ import (
 	"bytes"
 	"fmt"
 	"io"
+	"os"
 	"regexp"
 	"sort"
 	"strconv"
@@ -44,6 +45,7 @@ type recorder struct {
 	buf             bytes.Buffer
 	opens           int
 	writes          int
+	maxWrite        int // bytes of the largest single Write
 	closes          int
 	writeAfterClose bool
 }
@@ -55,7 +57,14 @@ func (r *recorder) write(p []byte) {
 		r.writeAfterClose = true
 	}
 	r.writes++
+	r.maxWrite = max(r.maxWrite, len(p))
 	r.buf.Write(p)
+}
+
+func (r *recorder) largestWrite() int {
+	r.mu.Lock()
+	defer r.mu.Unlock()
+	return r.maxWrite
 }
 
 func (r *recorder) close() {
@@ -130,11 +139,66 @@ func (f recFile) Close() error {
 	return f.File.Close()
 }
 
+// slowRecFs is the file system under the REAL file data sink (core/datasink NewFile opens its
+// file with OpenFile): it records what is written to the files opened through it, and models a
+// disk / network file system that is slow for a moment: the Write calls number from .. from+count-1
+// (all from `from` on when count < 0) take `delay` before the bytes are taken over. A writer that
+// obeys io.Writer ("Write must not modify the slice data ... Implementations must not retain p")
+// cannot tell the difference except by the time the call takes.
+type slowRecFs struct {
+	afero.Fs
+	r           *recorder
+	delay       time.Duration
+	from, count int
+}
+
+type slowRecFile struct {
+	afero.File
+	fs *slowRecFs
+	mu sync.Mutex
+	n  int
+}
+
+func (f *slowRecFs) OpenFile(name string, flag int, perm os.FileMode) (afero.File, error) {
+	file, err := f.Fs.OpenFile(name, flag, perm)
+	if err != nil {
+		return nil, err
+	}
+	f.r.mu.Lock()
+	f.r.opens++
+	f.r.mu.Unlock()
+	return &slowRecFile{File: file, fs: f}, nil
+}
+func (f *slowRecFs) Create(name string) (afero.File, error) {
+	return f.OpenFile(name, os.O_RDWR|os.O_CREATE|os.O_TRUNC, 0666)
+}
+func (f *slowRecFile) Write(p []byte) (int, error) {
+	f.mu.Lock()
+	i := f.n
+	f.n++
+	f.mu.Unlock()
+	if fs := f.fs; fs.delay > 0 && i >= fs.from && (fs.count < 0 || i < fs.from+fs.count) {
+		time.Sleep(fs.delay)
+	}
+	f.fs.r.write(p)
+	return f.File.Write(p)
+}
+func (f *slowRecFile) WriteString(s string) (int, error) { return f.Write([]byte(s)) }
+func (f *slowRecFile) Close() error {
+	f.fs.r.close()
+	return f.File.Close()
+}
+
 // ---------------- phout samples ----------------
 
 // PhSample is one reported net sample: what the harness puts into a
 // netsample.Sample through the exported setters.
 type PhSample struct {
+	// Discarded: not a gun's sample but the one the engine reports for a discarded shoot
+	// (netsample.DiscardedShootSample(), core/engine/instance.go under discard_overflow); the
+	// other fields are ignored then.
+	Discarded bool `json:"discarded,omitempty"`
+
 	Tag     string `json:"tag"`
 	ID      uint64 `json:"id"`
 	RTTUs   int64  `json:"interval_real_us"`
@@ -150,8 +214,19 @@ type PhSample struct {
 
 func us(v int64) time.Duration { return time.Duration(v) * time.Microsecond }
 
-// build creates the sample the way a gun does.
+// What docs/eng/best_practices/discard-overflow.md says about a discarded request: "marked as
+// failed (with a net error `777`, and also tagged as discarded)". Nothing else is set on it.
+const (
+	discardedTag     = "discarded"
+	discardedNetCode = 777
+)
+
+// build creates the sample the way a gun does (or, for a discarded shoot, the way the
+// instance does).
 func (p PhSample) build() *netsample.Sample {
+	if p.Discarded {
+		return netsample.DiscardedShootSample()
+	}
 	s := netsample.Acquire(p.Tag)
 	s.SetID(p.ID)
 	s.SetUserDuration(us(p.RTTUs))
@@ -169,6 +244,9 @@ func (p PhSample) build() *netsample.Sample {
 // key is everything of the expected phout line after the timestamp column, in the
 // documented column order.
 func (p PhSample) key(ids bool) string {
+	if p.Discarded {
+		p = PhSample{Tag: discardedTag, NetCode: discardedNetCode}
+	}
 	var b strings.Builder
 	b.WriteString(p.Tag)
 	if ids {
